@@ -193,14 +193,36 @@ fn matches_groups(got: &[Ph], groups: &[&Vec<Ph>]) -> bool {
 fn asn1_freq_range() -> Option<(u64, u64)> {
     let repo = std::env::var("VERIF_REPO").unwrap_or_else(|_| "/repo".to_string());
     let text = std::fs::read_to_string(std::path::Path::new(&repo).join("src/dictionary/trie.asn1")).ok()?;
-    for line in text.lines() {
-        let l = line.trim();
-        if l.starts_with("freq") && l.contains("INTEGER") {
-            let a = l.find('(')?;
-            let b = l.find(')')?;
-            let (lo, hi) = l[a + 1..b].split_once("..")?;
+    parse_freq_range(&text)
+}
+
+/// tolerant of layout: comments (`-- …`), line breaks and spacing do not matter
+fn parse_freq_range(text: &str) -> Option<(u64, u64)> {
+    let flat: String = text
+        .lines()
+        .map(|l| l.split("--").next().unwrap_or(""))
+        .collect::<Vec<_>>()
+        .join(" ")
+        .split_whitespace()
+        .collect::<Vec<_>>()
+        .join(" ");
+    // the `freq` field of `Phrase ::= SEQUENCE { … }`
+    let ph = flat.find("Phrase ::= SEQUENCE")?;
+    let body = &flat[ph..];
+    let body = &body[..body.find('}')?];
+    let mut from = 0;
+    while let Some(i) = body[from..].find("freq") {
+        let at = from + i;
+        let before_ok = at == 0 || !body.as_bytes()[at - 1].is_ascii_alphanumeric();
+        let rest = body[at + 4..].trim_start();
+        if before_ok && rest.starts_with("INTEGER") {
+            let rest = rest["INTEGER".len()..].trim_start();
+            let rest = rest.strip_prefix('(')?;
+            let inner = &rest[..rest.find(')')?];
+            let (lo, hi) = inner.split_once("..")?;
             return Some((lo.trim().parse().ok()?, hi.trim().parse().ok()?));
         }
+        from = at + 4;
     }
     None
 }
@@ -686,6 +708,85 @@ fn gen_big_leaf(rng: &mut Rng) -> Case {
     Case { info: Default::default(), ents }
 }
 
+/// distinct non-zero syllable codes in a scrambled order (211 is coprime to the prime 65521)
+fn scrambled(i: u32) -> u16 {
+    (i * 211 % 65521 + 1) as u16
+}
+
+fn cjk3(i: u32) -> String {
+    [0x4E00 + i % 0x5000, 0x4E00 + (i / 0x5000), 0x6E2C].iter().map(|c| char::from_u32(*c).unwrap()).collect()
+}
+
+/// fixed extreme shapes inside the format's limits (every one goes through the same pipeline as the random
+/// cases: bytes compared with the model's writer, real reader vs model reader, oracle):
+/// wide fan-out (child_len needs the high byte of its u16), deep keys with every prefix inserted, leaves whose
+/// data offsets need more than 16 bits (data_begin's upper bytes), a leaf of exactly 65 535 encoded bytes
+fn shape_cases(rng: &mut Rng) -> Vec<(String, Case)> {
+    let mut v = vec![];
+    // wide: 260 children under the root, 300 under one of them, inserted in scrambled order
+    {
+        let hub = scrambled(7);
+        let mut ents = vec![];
+        for i in 0..300u32 {
+            ents.push(Ent { key: vec![hub, scrambled(i)], ph: Ph { text: gen_text(rng, 2), freq: gen_freq(rng), ts: gen_ts(rng) } });
+            if i < 260 {
+                ents.push(Ent { key: vec![scrambled(i)], ph: Ph { text: gen_text(rng, 1), freq: gen_freq(rng), ts: None } });
+            }
+            if i % 50 == 3 {
+                ents.push(Ent { key: vec![hub, scrambled(i), scrambled(i + 1)], ph: Ph { text: gen_text(rng, 3), freq: i, ts: None } });
+                ents.push(Ent { key: vec![hub, scrambled(i)], ph: Ph { text: gen_text(rng, 2), freq: gen_freq(rng), ts: None } });
+            }
+        }
+        v.push(("wide: 260 children under the root, 300 under one child".to_string(), Case { info: Default::default(), ents }));
+    }
+    // deep: a key of 40 syllables with every prefix inserted, a branch at depth 20, a 60-syllable chain without inner leaves
+    {
+        let pool = syl_pool(rng);
+        let base: Vec<u16> = (0..40).map(|_| *rng.pick(&pool)).collect();
+        let mut ents = vec![];
+        let mut order: Vec<usize> = (0..=40).collect();
+        for i in (1..order.len()).rev() {
+            order.swap(i, rng.below(i as u64 + 1) as usize);
+        }
+        for len in order {
+            ents.push(Ent { key: base[..len].to_vec(), ph: Ph { text: gen_text(rng, len.max(1)), freq: gen_freq(rng), ts: gen_ts(rng) } });
+        }
+        let mut branch = base[..20].to_vec();
+        for _ in 0..10 {
+            branch.push(scrambled(rng.below(1000) as u32));
+        }
+        ents.push(Ent { key: branch, ph: Ph { text: gen_text(rng, 30), freq: 5, ts: None } });
+        let chain: Vec<u16> = (0..60).map(|i| scrambled(2000 + i)).collect();
+        ents.push(Ent { key: chain, ph: Ph { text: gen_text(rng, 60), freq: 6, ts: Some(6) } });
+        v.push(("deep: 40 syllables with every prefix a key, a 60-syllable chain".to_string(), Case { info: Default::default(), ents }));
+    }
+    // heavy: four leaves of about 30 KB each, so that data_begin exceeds 65 535
+    {
+        let (a, b, c) = (enc(20, 0, 3, 4), enc(17, 0, 0, 4), enc(1, 0, 1, 0));
+        let mut ents = vec![];
+        for i in 0..2800u32 {
+            // single characters (insertion order is kept; no sorting work)
+            let ch = char::from_u32(if i % 7 == 0 { 0x20000 + i } else { 0x4E00 + i }).unwrap();
+            ents.push(Ent { key: vec![a], ph: Ph { text: ch.to_string(), freq: gen_freq(rng), ts: if i % 5 == 0 { Some(i as u64) } else { None } } });
+        }
+        for (key, n) in [(vec![c], 1500u32), (vec![a, b], 1500), (vec![c, b], 200)] {
+            for i in 0..n {
+                // almost sorted already (descending frequency), with ties and a few inversions
+                let f = 3_000_000 - (i / 3) * 1000 + if i % 97 == 0 { 5000 } else { 0 };
+                ents.push(Ent { key: key.clone(), ph: Ph { text: cjk3(i), freq: f, ts: if i % 4 == 0 { Some(1u64 << (i % 60)) } else { None } } });
+            }
+        }
+        v.push(("heavy: four leaves of 13-36 KB, data offsets beyond 16 bits".to_string(), Case { info: Default::default(), ents }));
+    }
+    // the largest leaf the format can hold: 3855 records of 17 bytes = 65 535 bytes exactly
+    {
+        let key = vec![enc(20, 0, 3, 4)];
+        let ents = (0..3855u32).map(|i| Ent { key: key.clone(), ph: Ph { text: cjk3(i), freq: 32767 - i, ts: None } }).collect();
+        v.push(("a leaf of exactly 65535 encoded bytes".to_string(), Case { info: Default::default(), ents }));
+    }
+    v
+}
+
 /// partial syllables that are prefixes of `c` (and `c` itself), by the bit layout
 fn partials(c: u16) -> Vec<u16> {
     let mut v = vec![c];
@@ -764,6 +865,12 @@ struct Stats {
     bytes_max: usize,
     with_ts: u64,
     four_byte: u64,
+    max_child_len: u64,
+    max_leaf_bytes: u64,
+    max_records: u64,
+    max_data_begin: u64,
+    big_leaves: u64,
+    key_depth_hist: [u64; 5],
     first_n: u64,
     first_n_cut: u64,
     first_phrase: u64,
@@ -1051,7 +1158,8 @@ fn check_reader(out: &mut Out, st: &mut Stats, rng: &mut Rng, case: &Case, bytes
     }
 }
 
-fn case_stats(st: &mut Stats, case: &Case, bytes_len: usize) {
+fn case_stats(st: &mut Stats, case: &Case, bytes: &[u8]) {
+    let bytes_len = bytes.len();
     let rm = ref_map(&case.ents);
     st.files += 1;
     st.entries += case.ents.len() as u64;
@@ -1068,6 +1176,25 @@ fn case_stats(st: &mut Stats, case: &Case, bytes_len: usize) {
     for v in rm.values() {
         if mixed(v) {
             st.mixed_leaves += 1;
+        }
+    }
+    for (k, v) in &rm {
+        if v.len() > 20 {
+            st.big_leaves += 1;
+        }
+        let b = match k.len() { 0 => 0, 1 => 1, 2..=4 => 2, 5..=11 => 3, _ => 4 };
+        st.key_depth_hist[b] += 1;
+    }
+    // realised index geometry, from the file itself
+    if let Ok(p) = parse_document(bytes) {
+        st.max_records = st.max_records.max(p.index.len() as u64);
+        for (i, (a, l, s)) in p.index.iter().enumerate() {
+            if i != 0 && *s == 0 {
+                st.max_leaf_bytes = st.max_leaf_bytes.max(*l as u64);
+                st.max_data_begin = st.max_data_begin.max(*a as u64);
+            } else {
+                st.max_child_len = st.max_child_len.max(*l as u64);
+            }
         }
     }
     st.with_ts += case.ents.iter().filter(|e| e.ph.ts.is_some()).count() as u64;
@@ -1104,6 +1231,12 @@ fn oversize_cases(thorough: bool) -> Vec<(String, Case, bool)> {
             .chain(std::iter::once(Ent { key: vec![enc(1, 0, 1, 0)], ph: Ph { text: "八".into(), freq: 1, ts: None } }))
             .collect();
         v.push(("65535 children and a leaf under one node".to_string(), Case { info: Default::default(), ents }, false));
+        // the largest fan-out the format can hold: 65 535 children, no leaf; 131 072 records, so child_begin needs
+        // more than 16 bits
+        let ents = (1..=65535u32)
+            .map(|c| Ent { key: vec![enc(1, 0, 1, 0), scrambled(c - 1)], ph: Ph { text: "測試".into(), freq: c, ts: None } })
+            .collect();
+        v.push(("65535 children under one node, 131072 index records".to_string(), Case { info: Default::default(), ents }, true));
     }
     v
 }
@@ -1127,11 +1260,18 @@ fn check_oversize(out: &mut Out, st: &mut Stats, label: &str, case: &Case, fits:
                 }
             };
             let mut bad = None;
-            for (k, exp) in &rm {
+            // every key, or an evenly spread sample of about 300 when there are very many
+            let stride = (rm.len() / 300).max(1);
+            for (k, exp) in rm.iter().step_by(stride) {
                 let got = real.lookup(k, false).unwrap_or_default();
                 if !matches_groups(&got, &[exp]) {
                     bad = Some(format!("lookup({}) returns {} phrases, {} inserted", key_s(k), got.len(), exp.len()));
                     break;
+                }
+            }
+            if bad.is_none() {
+                if let Err(e) = read_independent(&bytes) {
+                    bad = Some(format!("the file does not conform to the documented format: {}", e));
                 }
             }
             if bad.is_none() {
@@ -1143,7 +1283,7 @@ fn check_oversize(out: &mut Out, st: &mut Stats, label: &str, case: &Case, fits:
             }
             match bad {
                 Some(b) => {
-                    fail(out, st, &format!("{}: write reports success but {} (silent truncation of a 16-bit length field)", label, b), &small(case));
+                    fail(out, st, &format!("{}: write reports success but {}", label, b), &small(case));
                     "silently-wrong"
                 }
                 None => "roundtrip-ok",
@@ -1164,7 +1304,7 @@ fn main() {
     let mut st = Stats {
         files: 0, entries: 0, lookups_hit: 0, lookups_miss: 0, fuzzy: 0, fuzzy_nonempty: 0, fuzzy_multi_key: 0,
         reinserts: 0, empty_key: 0, prefix_keys: 0, mixed_leaves: 0, max_syllables: 0, bytes_max: 0, with_ts: 0,
-        four_byte: 0, first_n: 0, first_n_cut: 0, first_phrase: 0, oracle_fail: 0,
+        four_byte: 0, max_child_len: 0, max_leaf_bytes: 0, max_records: 0, max_data_begin: 0, big_leaves: 0, key_depth_hist: [0; 5], first_n: 0, first_n_cut: 0, first_phrase: 0, oracle_fail: 0,
     };
 
     // ---- fixed cases: the repository's own examples and the corner cases named in the design
@@ -1191,6 +1331,12 @@ fn main() {
         cases.push(if i % 25 == 24 { gen_big_leaf(&mut rng) } else { gen_case(&mut rng, class) });
     }
 
+    let first_shape = cases.len();
+    let shapes = shape_cases(&mut rng);
+    for (_, c) in &shapes {
+        cases.push(c.clone());
+    }
+
     if asn1_freq_range().is_none() {
         // fail closed: the documented value range could not be read
         out.rec("codec xcheck asn1-freq-range-unreadable => fail");
@@ -1201,6 +1347,7 @@ fn main() {
         // fail closed: the cross-check could not be made
         out.rec("codec xcheck model-writer-unavailable => fail");
     }
+    let mut shape_files = 0u64;
     let mut x_identical = 0u64;
     let mut x_different = 0u64;
 
@@ -1215,9 +1362,13 @@ fn main() {
             }
         };
         out.rec(&format!("{} => {}", lhs, hbytes(&bytes)));
-        case_stats(&mut st, case, bytes.len());
+        case_stats(&mut st, case, &bytes);
         if i < 3 {
             out.sample(&format!("{} entries -> {} bytes", case.ents.len(), bytes.len()));
+        }
+        if i >= first_shape {
+            out.sample(&format!("shape: {} ({} entries) -> {} bytes", shapes[i - first_shape].0, case.ents.len(), bytes.len()));
+            shape_files += 1;
         }
         // equal input gives byte-identical files (a second builder, same inserts)
         match build(case) {
@@ -1270,6 +1421,13 @@ fn main() {
     out.stat("fuzzy_lookups", st.fuzzy);
     out.stat("fuzzy_lookups_nonempty", st.fuzzy_nonempty);
     out.stat("fuzzy_lookups_matching_several_keys", st.fuzzy_multi_key);
+    out.stat("leaves_with_more_than_20_phrases", st.big_leaves);
+    out.stat("keys_by_syllables_0_1_2to4_5to11_12plus", format!("{}/{}/{}/{}/{}", st.key_depth_hist[0], st.key_depth_hist[1], st.key_depth_hist[2], st.key_depth_hist[3], st.key_depth_hist[4]));
+    out.stat("max_children_of_a_node", st.max_child_len);
+    out.stat("max_leaf_encoded_bytes", st.max_leaf_bytes);
+    out.stat("max_index_records", st.max_records);
+    out.stat("max_data_begin", st.max_data_begin);
+    out.stat("extreme_shape_files", shape_files);
     out.stat("first_n_lookups", st.first_n);
     out.stat("first_n_lookups_shorter_than_all", st.first_n_cut);
     out.stat("first_phrase_lookups", st.first_phrase);
